@@ -1,2 +1,5 @@
-(* C10 — all proofs (re-export).  Part A: objects over Q; part B: Gram-Schmidt over Q(i), weights. *)
+(* C10 — all proofs (re-export).  Part A: objects over Q; part B: Gram-Schmidt over Q(i), weights.
+   Round 3: tomography combinations, Gram-Schmidt without the independence premise and with the
+   clamp_min guard, ties, weight edge cases. *)
 From QV.proof Require Export C10_Proofs_Obj C10_Proofs_GS C10_Proofs_W.
+From QV.proof Require Export C10_Proofs_Tomo C10_Proofs_Dep C10_Proofs_Ties C10_Proofs_W2.
